@@ -35,9 +35,15 @@ type mangler struct {
 }
 
 func newMangler() *mangler {
+	taken := make(map[string]struct{})
+	// The names of the native types are used as they are: a custom type
+	// called String or I32 must not share them.
+	for _, name := range []string{"bool", "byte", "i16", "i32", "i64", "double", "string", "binary"} {
+		taken[goCase(name)] = struct{}{}
+	}
 	return &mangler{
 		names: make(map[string]map[string]string),
-		taken: make(map[string]struct{}),
+		taken: taken,
 	}
 }
 
